@@ -61,7 +61,7 @@ func init() {
 			"'never early' is one-sided: the start instant is read before Play/MultiPlay is called, so machine load can only delay sends, never make the check fire",
 			"sysex events in tracks are not constrained (the statement speaks of channel messages and meta events)",
 		},
-		Require: []string{"plays", "sends_observed", "same_tick_runs_ge_13", "cross_track_same_tick", "selections_proper_subset", "maps_without_default", "never_early_checks", "play_single_port", "replays_with_rerouted_map", "late_schedule_plays"},
+		Require: []string{"plays", "sends_observed", "same_tick_runs_ge_13", "cross_track_same_tick", "selections_proper_subset", "maps_without_default", "never_early_checks", "play_single_port", "replays_with_rerouted_map", "late_schedule_plays", "round_gap_plays"},
 		Workers: 16,
 		Run:     runC12,
 	})
@@ -75,6 +75,7 @@ type c12Ev struct {
 
 func runC12(c *mon.Ctx) {
 	runC12LateSchedule(c)
+	runC12RoundGaps(c)
 	c.Each("files", c.N(300, 30_000), func(i int64, r *mon.Rand) {
 		nt := r.Range(1, 5)
 		res := int64(r.Pick(24, 96, 480))
@@ -413,6 +414,67 @@ func runC12LateSchedule(c *mon.Ctx) {
 		}
 		if early != 5 {
 			c.Violation("missing-send", fmt.Sprintf("%d of the 5 messages scheduled within the first 60 ms arrived within 300 ms", early), in, 5, early)
+		}
+		c.DistinctBytes(b)
+	})
+}
+
+// runC12RoundGaps plays files whose gaps between messages are exact, round durations (0.5 s, 1 s, 2 s
+// to the microsecond) in full: schedulers that chop long sleeps into intervals fail on exact multiples.
+func runC12RoundGaps(c *mon.Ctx) {
+	c.Each("round-gaps", c.N(2, 6), func(i int64, r *mon.Rand) {
+		// 96 ticks per quarter at 120 BPM: 192 ticks = 1 s
+		gaps := [][]uint32{{96, 192, 384}, {384, 96}, {192, 192, 192}, {768}, {96, 96, 384}, {384, 384}}[i%6]
+		var t0ev, t1ev []ref.EncEv
+		t0ev = append(t0ev, ref.EncEv{Ev: ref.Ev{Delta: 2, Msg: []byte{0xB0, 1, 0}}})
+		t1ev = append(t1ev, ref.EncEv{Ev: ref.Ev{Delta: 2, Msg: []byte{0xB1, 2, 0}}})
+		abs := int64(2)
+		type ex struct {
+			msg   string
+			sched int64
+		}
+		want := []ex{{string([]byte{0xB0, 1, 0}), 2 * 500000 / 96}, {string([]byte{0xB1, 2, 0}), 2 * 500000 / 96}}
+		for k, g := range gaps {
+			abs += int64(g)
+			m0, m1 := []byte{0xB0, 1, byte(k + 1)}, []byte{0xB1, 2, byte(k + 1)}
+			t0ev = append(t0ev, ref.EncEv{Ev: ref.Ev{Delta: g, Msg: m0}})
+			t1ev = append(t1ev, ref.EncEv{Ev: ref.Ev{Delta: g, Msg: m1}})
+			want = append(want, ex{string(m0), abs * 500000 / 96}, ex{string(m1), abs * 500000 / 96})
+		}
+		t0ev = append(t0ev, ref.EncEv{Ev: ref.Ev{Delta: 0, Msg: ref.EOT}})
+		t1ev = append(t1ev, ref.EncEv{Ev: ref.Ev{Delta: 0, Msg: ref.EOT}})
+		b := (&ref.EncFile{Format: 1, Division: 96, NTracks: -1, Tracks: [][]ref.EncEv{t0ev, t1ev}}).Bytes(nil)
+		log := &playLog{}
+		pa, pb := &fakeOut{id: 0, log: log, open: true}, &fakeOut{id: 1, log: log, open: true}
+		trd := smf.ReadTracksFrom(bytes.NewReader(b))
+		if trd.Error() != nil {
+			return
+		}
+		in := map[string]any{"file": mon.Hex(b), "gaps in ticks (192 ticks = 1 s)": fmt.Sprint(gaps)}
+		log.t0 = time.Now()
+		if c.Guard("panic:Play", in, func() { trd.MultiPlay(map[int]drivers.Out{0: pa, 1: pb}) }) {
+			return
+		}
+		c.Count("round_gap_plays", 1)
+		sched := map[string]int64{}
+		for _, e := range want {
+			sched[e.msg] = e.sched
+		}
+		if len(log.recs) != len(want) {
+			c.Violation("missing-send", fmt.Sprintf("%d messages expected, %d sent", len(want), len(log.recs)), in, len(want), len(log.recs))
+			return
+		}
+		for _, sr := range log.recs {
+			sc, ok := sched[string(sr.data)]
+			if !ok {
+				c.Violation("unexpected-send", fmt.Sprintf("unexpected message % X", sr.data), in, nil, nil)
+				return
+			}
+			c.Count("never_early_checks", 1)
+			if sr.at.Microseconds() < sc-2 {
+				c.Violation("early", fmt.Sprintf("message % X scheduled %d us after the start (after pauses of exactly 0.5/1/2 s) was sent %d us after the start", sr.data, sc, sr.at.Microseconds()), in, sc, sr.at.Microseconds())
+				return
+			}
 		}
 		c.DistinctBytes(b)
 	})
